@@ -130,7 +130,34 @@ def run(spec):
         sig = re.sub(r'\d+', 'N', mon_msg(r))[:160]
         return any(f['signature'] and f['signature'] in sig for f in kf)
 
+    # directed reproductions of the findings listed in known_findings.txt (never of anything else): each listed finding
+    # is re-run on every check so that its KNOWN-FINDING line is printed; such a run contributes nothing but its
+    # monitor messages (the model is not expected to accept a history that exhibits the defect)
+    frun = []
+    if not replay:
+        for fid, argvs in spec.get('finding_runs', {}).items():
+            if any(f['id'] == fid for f in kf):
+                # an entry is an argv, or (argv, alternative signature valid for this directed run only)
+                frun += [((fid, a[1]), list(a[0])) if isinstance(a, tuple) else ((fid, None), list(a)) for a in argvs]
+    fres = run_e2(hbin, spec['model'], [a for _, a in frun], par=spec.get('par', 4), timeout_s=spec.get('timeout_s', 600), listed=lambda r: True) if frun else []
+    found = {}
+    for ((fid, alt), a), r in zip(frun, fres):
+        found.setdefault(fid, None)
+        if classify_e2(r) == 'monitor':
+            if is_listed(r) or (alt and alt in re.sub(r'\d+', 'N', mon_msg(r))):
+                found[fid] = found[fid] or mon_msg(r)
+            else:
+                r['argv'] = a
+                found[fid] = found[fid] or ''
+                spec.setdefault('_unlisted_from_findings', []).append(r)
+    for fid, msg in found.items():
+        if msg:
+            known_lines.append(f"KNOWN-FINDING: property={prop} {fid}: {msg[:200]}")
+        elif msg is None:
+            print(f"NOTE: property={prop} finding {fid} did not reproduce in its directed run(s) on this tree")
+
     results = run_e2(hbin, spec['model'], runs, par=spec.get('par', 4), timeout_s=spec.get('timeout_s', 600), listed=is_listed)
+    results += spec.get('_unlisted_from_findings', [])
     kinds = {'pass': 0, 'monitor': 0, 'tie': 0, 'stall': 0, 'skip': 0}
     for r in results:
         kinds[classify_e2(r)] += 1
@@ -163,7 +190,8 @@ def run(spec):
             reported.add(sig)
             hit = [f for f in kf if f['signature'] and f['signature'] in sig]
             if hit:
-                known_lines.append(f"KNOWN-FINDING: property={prop} {hit[0]['id']}: {msg[:200]}")
+                if not any(k.startswith(f"KNOWN-FINDING: property={prop} {hit[0]['id']}:") for k in known_lines):
+                    known_lines.append(f"KNOWN-FINDING: property={prop} {hit[0]['id']}: {msg[:200]}")
                 continue
             p = write_replay(prop, f'monitor-{base_seed}-{len(reported)}.json',
                              {'property': prop, 'kind': 'monitor', 'what': msg, 'argv': r['argv'], 'impl_history_tail': trim(r['raw']),
